@@ -3,9 +3,10 @@
 // TypeException leaves the method; CALL catches it one level up).  No repository change is needed: protected members are
 // visible to a subclass; TypeFragments has no size(), but it is a standard-layout class whose only member is the vector.
 //
-// stdin : one op per line   `<mode> <newxta> <base64 input>`   mode = xml | xta | prop | part:<n>
+// stdin : one op per line   `<mode> <newxta> <base64 input>`   mode = xml | xta | prop | part:<n> | pre:<n>
 // stdout: `OP <index>` , then one line per top-level callback
-//            `C <name> <arity> <a0> .. | <outcome> F T R S  F' T' R' S'`   (outcome 0 ok, 1 TypeException, 2 other exception)
+//            `C <name> <arity> <a0> .. | <outcome> F T R S E M U G L  F' T' R' S' E' M' U' G' L'`
+//            (outcome 0 ok, 1 TypeException, 2 other exception; E..L = the current... pointer is non-null)
 //         then `END <result>`  (result: rc of the parse, or EXC:<class>, or DIED:<status> when the forked child crashed)
 #include "common.hpp"
 #include "libparser.h"
@@ -22,7 +23,7 @@ class TraceBuilder : public DocumentBuilder
 {
     int depth = 0;
     std::string cur;
-    size_t b[4];
+    size_t b[9];
 
     size_t tsize()
     {
@@ -35,6 +36,11 @@ class TraceBuilder : public DocumentBuilder
         o[1] = tsize();
         o[2] = frames.size();
         o[3] = fields.size();
+        o[4] = currentEdge != nullptr;
+        o[5] = currentTemplate != nullptr;
+        o[6] = currentFun != nullptr;
+        o[7] = currentGantt != nullptr;
+        o[8] = currentInstanceLine != nullptr;
     }
     void pre(const char* name, int arity, long* av)
     {
@@ -52,15 +58,48 @@ class TraceBuilder : public DocumentBuilder
     void post(int outcome)
     {
         if (--depth > 0) return;
-        size_t a[4];
+        size_t a[9];
         sizes(a);
-        std::cout << outcome << " " << b[0] << " " << b[1] << " " << b[2] << " " << b[3] << " " << a[0] << " "
-                  << a[1] << " " << a[2] << " " << a[3] << "\n";
+        std::cout << outcome;
+        for (int i = 0; i < 9; ++i) std::cout << " " << b[i];
+        for (int i = 0; i < 9; ++i) std::cout << " " << a[i];
+        std::cout << "\n";
     }
 
 public:
     explicit TraceBuilder(Document& d): DocumentBuilder{d} {}
 #include "c01_trace_gen.inc"
+};
+
+// Forwarding decorator around the (final) TigaPropertyBuilder: logs |fragments| and |properties| around each callback.
+//   `Q <name> <arity> <a0> .. | <outcome> F Q  F' Q'`
+class FwdTracer : public ParserBuilder
+{
+    ParserBuilder* inner;
+    PropertyBuilder* pb;
+    int depth = 0;
+    size_t bf = 0, bq = 0;
+    void pre(const char* name, int arity, long* av)
+    {
+        if (depth++ > 0) return;
+        std::cout << "Q " << name << " " << arity;
+        for (int i = 0; i < arity; ++i) {
+            if (av[i] == NOARG) std::cout << " _";
+            else std::cout << " " << av[i];
+        }
+        bf = pb->getExpressions().size();
+        bq = pb->getProperties().size();
+        std::cout << " | ";
+    }
+    void post(int outcome)
+    {
+        if (--depth > 0) return;
+        std::cout << outcome << " " << bf << " " << bq << " " << pb->getExpressions().size() << " " << pb->getProperties().size() << "\n";
+    }
+
+public:
+    FwdTracer(ParserBuilder* i, PropertyBuilder* p): inner{i}, pb{p} {}
+#include "c01_trace_fwd.inc"
 };
 
 static std::string b64dec(const std::string& in)
@@ -91,6 +130,21 @@ static std::string b64dec(const std::string& in)
 static void runOp(const std::string& mode, bool newxta, const std::string& input)
 {
     Document doc;
+    if (mode == "tiga") {
+        // a model (whole XTA text, may be empty), then one query text for the real TigaPropertyBuilder
+        auto cut = input.find('\x02');
+        std::string model = input.substr(0, cut), query = cut == std::string::npos ? "" : input.substr(cut + 1);
+        try {
+            parse_XTA(model.c_str(), &doc, newxta);
+            TigaPropertyBuilder tiga(doc);
+            FwdTracer ft(&tiga, &tiga);
+            int rc = parseProperty(query.c_str(), &ft);
+            std::cout << "END rc=" << rc << " errors=" << doc.get_errors().size() << " properties=" << tiga.getProperties().size() << "\n";
+        } catch (std::exception& ex) {
+            std::cout << "END EXC:" << typeid(ex).name() << "\n";
+        }
+        return;
+    }
     TraceBuilder tb(doc);
     try {
         int rc = 0;
@@ -98,6 +152,14 @@ static void runOp(const std::string& mode, bool newxta, const std::string& input
         else if (mode == "xta") rc = parse_XTA(input.c_str(), &tb, newxta);
         else if (mode == "prop") rc = parseProperty(input.c_str(), &tb);
         else if (mode.rfind("part:", 0) == 0) rc = parse_XTA(input.c_str(), &tb, newxta, (xta_part_t)std::stoi(mode.substr(5)), "");
+        else if (mode.rfind("pre:", 0) == 0) {
+            // two calls on one builder: a whole XTA text, then one part (texts separated by \x02)
+            auto cut = input.find('\x02');
+            std::string first = input.substr(0, cut), second = cut == std::string::npos ? "" : input.substr(cut + 1);
+            parse_XTA(first.c_str(), &tb, newxta);
+            std::cout << "SECOND\n";
+            rc = parse_XTA(second.c_str(), &tb, newxta, (xta_part_t)std::stoi(mode.substr(4)), "");
+        }
         else {
             std::cout << "END bad-mode\n";
             return;
@@ -135,7 +197,7 @@ int main(int argc, char** argv)
         }
         int status = 0;
         waitpid(pid, &status, 0);
-        if (!(WIFEXITED(status) && WEXITSTATUS(status) == 0)) std::cout << "END DIED:" << status << "\n";
+        if (!(WIFEXITED(status) && WEXITSTATUS(status) == 0)) std::cout << "\nEND DIED:" << status << "\n";
         std::cout.flush();
     }
     return 0;
